@@ -260,3 +260,64 @@ func VerifC18_AddDuringEvent() {
 	riA.Close()
 	riB.Close()
 }
+
+// VerifC18_ConcurrentFirstSubscribers: two controllers make the FIRST
+// subscription to the same resource at the same time - the second arrives
+// while the first is between its look-up and the creation of the informer
+// (pinned: it is started from inside the first one's client construction).
+// One underlying informer runs, both subscriptions share it, and it is stopped
+// when the last of them (and a third, later one) closes.
+func VerifC18_ConcurrentFirstSubscribers() {
+	verifC18Install()
+	w := env.NewWorld()
+	f := NewSharedInformerFactory(w.Dyn, 0)
+	var riB *ResourceInformer
+	var errB error
+	done := make(chan struct{})
+	fired := false
+	w.Srv.OnResource = func(gvr schema.GroupVersionResource) {
+		if fired || gvr.Resource != "things" {
+			return
+		}
+		fired = true
+		go func() {
+			riB, errB = f.Resource("ex.com/v1", "things")
+			close(done)
+		}()
+		time.Sleep(20 * time.Millisecond) // give the second subscriber every chance to get in
+	}
+	riA, errA := f.Resource("ex.com/v1", "things")
+	<-done
+	verifAssert(errA == nil && errB == nil && riA != nil && riB != nil, "concurrent-first/subscribe-error")
+	if verifC18Failed {
+		return
+	}
+	stub.Settle(1)
+	stubs := stub.Stubs()
+	verifAssert(len(stubs) == 1, "concurrent-first/more-than-one-underlying-informer-created")
+	verifAssert(f.VerifRefCount("ex.com/v1", "things") == 2, "concurrent-first/subscription-count")
+	verifAssert(riA.VerifUnderlying() == riB.VerifUnderlying(), "concurrent-first/subscribers-do-not-share-the-informer")
+	if verifC18Failed {
+		return
+	}
+	// a third, later subscriber; the first two leave: the informer keeps running for it
+	riC, errC := f.Resource("ex.com/v1", "things")
+	verifAssert(errC == nil && riC != nil, "concurrent-first/third-subscribe-error")
+	if verifC18Failed {
+		return
+	}
+	riA.Close()
+	riB.Close()
+	verifAssert(!stubs[0].Stopped(), "concurrent-first/informer-stopped-while-a-subscription-is-open")
+	hC := &verifRec{}
+	riC.Informer().AddEventHandler(hC)
+	stubs[0].Handler(0).OnAdd(env.Thing("ns", "x", "ux"), false)
+	verifAssert(hC.adds == 1, "concurrent-first/remaining-subscriber-gets-no-events")
+	riC.Close()
+	stub.Settle(1)
+	for _, s := range stub.Stubs() {
+		verifAssert(s.Stopped(), "concurrent-first/informer-left-running-after-the-last-close")
+	}
+	verifAssert(f.VerifRunning() == 0, "concurrent-first/shared-informer-still-held")
+	rt.Cover("concurrent-first/done")
+}
